@@ -24,14 +24,14 @@ theorem parseRangeEnd_good (ts1 : List Tok) :
     | crash s => rw [hrc] at hg; exact absurd hg.2 id
   · exact ⟨Nat.le_refl _, by simp⟩
 
-theorem parseRangesLoop_good : ∀ (g : Nat) (ts : List Tok), ts.length < g →
+theorem parseRangesLoop_good : ∀ (g : Nat) (first : Bool) (ts : List Tok), ts.length < g →
     Good (fun items _ => ∀ x ∈ items, inRangeRng x.1 = true ∧ x.2 ≤ ts.length) ts.length False
-      (parseRangesLoop g ts) := by
+      (parseRangesLoop first g ts) := by
   intro g
   induction g with
-  | zero => intro ts h; omega
+  | zero => intro first ts h; omega
   | succ g ih =>
-    intro ts hlt
+    intro first ts hlt
     unfold parseRangesLoop
     split
     · simp [Good]
@@ -40,10 +40,11 @@ theorem parseRangesLoop_good : ∀ (g : Nat) (ts : List Tok), ts.length < g →
       simp only [List.mem_singleton] at hx
       subst hx
       simp [inRangeRng, inRangeChrSet]
-    · refine ⟨by simp, ?_⟩
-      intro x hx; cases hx
     · simp [Good]
-    · next h1 h2 h3 h4 =>
+    · next h1 h2 h4 =>
+      split
+      · refine ⟨by simp, ?_⟩
+        intro x hx; cases hx
       have hg := parseRangeChar_good ts (by intro h; subst h; exact h1 rfl) (by intro r h; subst h; exact h4 _ rfl)
       cases hrc : parseRangeChar ts with
       | err k n => rw [hrc] at hg; exact hg
@@ -65,8 +66,8 @@ theorem parseRangesLoop_good : ∀ (g : Nat) (ts : List Tok), ts.length < g →
           split
           · simp only [Good]; omega
           · next hrev =>
-            have hrec := ih ts2 (by omega)
-            cases hr : parseRangesLoop g ts2 with
+            have hrec := ih false ts2 (by omega)
+            cases hr : parseRangesLoop false g ts2 with
             | err k n => rw [hr] at hrec; simp only [Good] at hrec ⊢; omega
             | crash s => rw [hr] at hrec; exact absurd hrec.2 id
             | ok v =>
@@ -170,10 +171,10 @@ theorem parseRanges_good (ts : List Tok) :
     split
     · intro x hx; simp only [List.mem_singleton] at hx; subst hx; simp [inRangeRng, inRangeChrSet]
     · intro x hx; cases hx
-  have hg := parseRangesLoop_good ((afterPrefixDash ts).length + 1) (afterPrefixDash ts) (by omega)
+  have hg := parseRangesLoop_good ((afterPrefixDash ts).length + 1) (prefixDash ts).isEmpty (afterPrefixDash ts) (by omega)
   generalize afterPrefixDash ts = ts' at *
   generalize prefixDash ts = pre at *
-  cases hl : parseRangesLoop (ts'.length + 1) ts' with
+  cases hl : parseRangesLoop pre.isEmpty (ts'.length + 1) ts' with
   | err k n => rw [hl] at hg; simp only [Good] at hg ⊢; omega
   | crash s => rw [hl] at hg; exact absurd hg.2 id
   | ok v =>
